@@ -102,6 +102,7 @@ Fixpoint plain_exec (c : code) (env : list pyval) : outcome * list ev :=
       let a := map (eval env) args in let kw := eval_kw env kwargs in
       pbind_val (plain_call (o_alias cf) a kw (plain_exec body (body_env a kw))) (fun v => plain_exec k (env ++ [v]))
   | Try c1 h => pbind_exn (plain_exec c1 env) (plain_exec h env)
+  | Spawn c1 k => let '(_, l1) := plain_exec c1 env in let '(o2, l2) := plain_exec k env in (o2, l1 ++ l2)
   | Discard k | Force k | Enable _ k => plain_exec k env
   | RecordData _ _ k => plain_exec k env
   | PlayData _ k => plain_exec k (env ++ [VNone])
@@ -228,6 +229,11 @@ Section Rec.
         let a := map (eval env) args in let kw := eval_kw env kwargs in
         bind_val (rec_out_call cf a kw (rec_exec body (body_env a kw)) s) (fun v s' => rec_exec k (env ++ [v]) s')
     | Try c1 h => bind_exn (rec_exec c1 env s) (rec_exec h env)
+    | Spawn c1 k =>
+        (* the worker thread starts with its own (clear) thread-local interception flag (:276-293); the flag of the
+           spawning thread is untouched; everything else on the recorder is shared *)
+        let '(_, s1, l1) := rec_exec c1 env (set_icpt false s) in
+        prepend l1 (rec_exec k env (set_icpt (icpt s) s1))
     | Discard k => let '(s1, la) := discard s in prepend la (rec_exec k env s1)
     | Force k => rec_exec k env (do_force (p_ignore P) s)
     | Enable b k => rec_exec k env (set_enabled b s)
@@ -343,6 +349,7 @@ Section Play.
         let a := map (eval env) args in let kw := eval_kw env kwargs in
         bind_val (play_out_call cf a kw s) (fun v s' => play_exec k (env ++ [v]) s')
     | Try c1 h => bind_exn (play_exec c1 env s) (play_exec h env)
+    | Spawn c1 k => let '(_, s1, l1) := play_exec c1 env s in prepend l1 (play_exec k env s1)
     | Discard k | Force k => play_exec k env s                  (* no active recording: no-ops *)
     | Enable b k => play_exec k env (mk_pst (pcounter s) b)
     | RecordData _ _ k => play_exec k env s
